@@ -327,6 +327,7 @@ PROPS["C12"] = dict(
         "decide": dict(runner="C12_decide_run", in_t="C12_decide_in", out_t="C12_decide_out", shard=400),
         "json": dict(runner="C12_json_run", in_t="C12_json_in", out_t="C12_json_out", shard=800),
         "apply": dict(runner="C12_apply_run", in_t="C12_apply_in", out_t="C12_apply_out", shard=12),
+        "final": dict(runner="C12_final_run", in_t="C12_final_in", out_t="C12_final_out", shard=30),
     },
     level_text="Unbounded theorems over the line-by-line model of src/memvid/acl.rs and the ACL stage of its four call sites "
                "(any JSON parser pair, any metadata map, any context, any frame table, any hit list): the decision is Allow iff the metadata is "
@@ -346,8 +347,13 @@ PROPS["C12"] = dict(
          "comma / empty or non-string members / not an array / trailing garbage, dropped / blank / near-miss keys, unknown visibility, extra keys; contexts "
          "with tenant present/absent/blank, subject, 0-3 roles and groups in the same forms; 24 fixed branch witnesses first. json: n/3 strings through "
          "serde_json::from_str::<String> and ::<Vec<String>>. apply: one case = one search / vector-search request on a real memory (9 frames, lex+vec, "
-         "commit) under 11 contexts x Audit/Enforce, compared call by call with the model's ACL stage applied to the no-ACL hits. e2e (oracle only): "
-         "search, vec_search_with_embedding_acl, search_adaptive_acl, ask (Lex/Hybrid, context_only, adaptive) on n/400 memories: every frame id in hits, "
+         "commit) under 11 contexts x Audit/Enforce, compared call by call with the model's ACL stage applied to the no-ACL hits. final: every response of EVERY entry point "
+         "that takes an acl_context (Memvid::search, Memvid::ask, vec_search_with_embedding_acl, search_adaptive_acl -- audit(), graph_search and replay pass none) must be a fixed point of the "
+         "model's last step (re-applying the model's ACL stage to the returned hits changes neither hits nor ranks; ask citations / fragments derived from exactly those hits), one case = one "
+         "request on one memory under all contexts x Audit/Enforce; ask paths: plain, zero-hit timeline fallback, ANALYTICAL (timeline replaces the candidates), aggregation, recency, update, "
+         "corrections (mv2://correction/ frames), time range, Lex/Sem/Hybrid, adaptive, context_only. A fixed 12-frame memory (both tenants, role/principal/group restrictions, unknown visibility, "
+         "no ACL metadata, non-JSON list, corrections) with 9 fixed contexts runs first, analytical questions first. e2e (oracle only): "
+         "the same calls on the fixed memory + n/600 generated memories: every frame id in hits, "
          "citations, context fragments and every frame marker in context/answer text must be granted by the harness's own decision function; Audit must "
          "equal no-ACL; Enforce without tenant must be an error. non-trivial = usable tenant and non-empty metadata (decide) / parse accepted (json) / "
          "the no-ACL result holds at least one denied frame (apply, e2e Enforce) / non-empty result (Audit); distinct by BLAKE3 of the input",
@@ -443,11 +449,11 @@ PROPS["C30"] = dict(
          "images: intact, 1-3 trailing bytes, truncated, last byte removed, pre-replay (V2) and pre-memories (V1) layouts with and without a trailing byte, Option tag 2..255, enum tag out of range, vector length over its bound, frames count +-1, bool byte >= 2, invalid UTF-8, one random bit; "
          "compared: encode bytes, Ok value / error class (trailing vs decode error) of decode; implementation oracle: decode(encode t) = t, re-encoding equality, must-reject damage rejected, a damaged image that decodes to a different value fails verify_checksum, stamped TOC verifies, altered checksum / content does not; "
          "non-trivial = always (header), >= 2 entries (append), every read case, TOC with frames / decode that answered Ok or had to reject; distinct by BLAKE3 of the input",
-    level_text="Unbounded theorems over line-by-line models. Header: decode(encode h) = h for every header the Rust type can hold that passes encode's checks; encode rejects exactly the others; decode accepts exactly the 4096-byte buffers whose magic, version, spec bytes, wal_offset >= 4096, wal_size <> 0 check out, never panics, every accepted image re-encodes to itself on bytes 0..80 (so no other value is returned), bytes 80..4096 are ignored (stated); write/read on a file round-trips and the legacy scrub never changes the result. Footer: C31's model (round trip, length/magic rejection). Time index: read(append es) = sorted es for every store, position, entry list below 2^59 entries and any hash; the sort is characterised as THE sorted permutation; an Ok answer implies magic, count, length = 12+16n, order, and byte-exact image; image of an unsorted list -> 'entries not sorted'; totality is REFUTED in one class (count*16 >= 2^63 with matching length panics in Vec::with_capacity; known finding F-C30-1) and proved outside it, the class is exact. TOC: one generic theorem dec s (enc s v ++ rest) = Ok (v, rest) for every schema and well-typed value of the bincode model (fixed-int LE, Option, Vec with serde bounds, String with UTF-8 check, BTreeMap insertion, fixed arrays, tuples, unit enums), instantiated on the full Toc schema (every field of every reachable type; memory_binding as None only): decode(encode t) = t from the current-layout branch, any trailing bytes -> error, the V2/V1 fallback only after a decode error, verify_checksum(stamp t) holds and verify_checksum accepts only the digest of one of the three zero-checksum images. Models tied to the code by differential runs and regenerated constants.",
-    level_note="Partial in one respect: Toc.memory_binding is covered as None only (Uuid / chrono::DateTime codecs are not modelled). Known finding F-C30-1 (time-index reader panics on count >= 2^59 with matching length). Trusted: Coq kernel + vm_compute; hand-written models of src/io/header.rs, src/io/time_index.rs, src/toc.rs and of bincode 2 serde mode + the serde schema of types::Toc transcribed by hand (tied by byte-exact comparison of Toc::encode on generated values and of Toc::decode on damaged / legacy images); BLAKE3 abstracted as an arbitrary function (incremental hashing = hash of the concatenation); str::from_utf8 modelled as the Unicode well-formedness table; memory allocation assumed to succeed below isize::MAX bytes; the 512 MiB bincode limit not modelled (inputs are shorter); harness and translator.",
+    level_text="Unbounded theorems over line-by-line models. Header: decode(encode h) = h for every header the Rust type can hold that passes encode's checks; encode rejects exactly the others; decode accepts exactly the 4096-byte buffers whose magic, version, spec bytes, wal_offset >= 4096, wal_size <> 0 check out, never panics, every accepted image re-encodes to itself on bytes 0..80 (so no other value is returned), bytes 80..4096 are ignored (stated); write/read on a file round-trips and the legacy scrub never changes the result. Footer: C31's model (round trip, length/magic rejection). Time index: read(append es) = sorted es for every store, position, entry list below 2^59 entries and any hash; the sort is characterised as THE sorted permutation; an Ok answer implies magic, count, length = 12+16n, order, and byte-exact image; image of an unsorted list -> 'entries not sorted'; read_track never panics on any input (the count*16 >= 2^63 class with matching length, which panicked in Vec::with_capacity before the repair b6c8721, is answered 'entry count too large', and exactly that class is). TOC: one generic theorem dec s (enc s v ++ rest) = Ok (v, rest) for every schema and well-typed value of the bincode model (fixed-int LE, Option, Vec with serde bounds, String with UTF-8 check, BTreeMap insertion, fixed arrays, tuples, unit enums), instantiated on the full Toc schema (every field of every reachable type; memory_binding as None only): decode(encode t) = t from the current-layout branch, any trailing bytes -> error, the V2/V1 fallback only after a decode error, verify_checksum(stamp t) holds and verify_checksum accepts only the digest of one of the three zero-checksum images. Models tied to the code by differential runs and regenerated constants.",
+    level_note="Partial in one respect: Toc.memory_binding is covered as None only (Uuid / chrono::DateTime codecs are not modelled). Fixed finding: the time-index reader panicked on count >= 2^59 with matching length (b6c8721). Trusted: Coq kernel + vm_compute; hand-written models of src/io/header.rs, src/io/time_index.rs, src/toc.rs and of bincode 2 serde mode + the serde schema of types::Toc transcribed by hand (tied by byte-exact comparison of Toc::encode on generated values and of Toc::decode on damaged / legacy images); BLAKE3 abstracted as an arbitrary function (incremental hashing = hash of the concatenation); str::from_utf8 modelled as the Unicode well-formedness table; try_reserve_exact / allocations below isize::MAX bytes are taken to succeed (for read_track a refusal would be the same Err, never a panic); the 512 MiB bincode limit not modelled (inputs are shorter); harness and translator.",
     trusted_base=["BLAKE3 is a Section variable H in the theorems; in the correspondence run it is the table of the real digest of the written track",
                   "bincode's byte limit (512 MiB) is not modelled: it only turns longer inputs / larger declared lengths into errors, which the model also answers with errors",
-                  "Vec::with_capacity / vec![0; n] allocations below isize::MAX bytes are assumed to succeed (deserialize_vec_bounded pre-allocates up to LIMIT elements: up to 10^7 Frames for a crafted frames length; read_track pre-allocates count*16 bytes); the harness keeps crafted lengths out of the 2^24..2^59 range",
+                  "Vec::with_capacity / vec![0; n] allocations below isize::MAX bytes are assumed to succeed (deserialize_vec_bounded pre-allocates up to LIMIT elements: up to 10^7 Frames for a crafted frames length; read_track reserves count*16 bytes fallibly: a refusal is 'entry count too large', modelled only at >= 2^63 bytes); the harness keeps crafted counts out of the 2^24..2^59 range",
                   "legacy V1/V2 images are assembled in the harness from the field encodings produced by bincode with the same configuration (LegacyTocV1/V2 are private)"],
     assumptions=["header_wf / entry_wf / wt: values the Rust types can hold (array lengths, integer widths, valid UTF-8, BTreeMap keys strictly ascending); vector lengths within their deserialize bounds (a Toc with more than 10^7 frames encodes but is refused by decode -- stated in wt)",
                  "time index round trip: fewer than 2^59 entries (16 bytes each below isize::MAX)",
@@ -742,7 +748,7 @@ PROPS["C16"] = dict(
          "timestamps all equal (half) or on 2-4 day levels or hour levels (recency re-sort active). One request top_k=1000 = one-shot stream + per frame BM25 score, chunk range, chunk text; from these the oracles of the model: engine ranking (score desc, frame id asc), "
          "slice tables for caps 1-6 via verif_hooks::snippet_slices (self-checked against the one-shot ranges), f32 combined scores by the code's formula. Stream walk: page sizes 0,1..10 and one of 11/16/25/50/999, following next_cursor to the end (fuel 400): every page's (frame, range) list, total_hits, next_cursor "
          "and the way the walk ends compared with the end-to-end model -- also where doc_limit or the snippet cap binds. Stream page: single requests with cursors at/after total_hits of the first page and of the one-shot answer, random mid-document offsets, padded ' n ', '+n', '00n', empty, blank, non-numeric, > u64::MAX, far beyond, "
-         "top_k 0 and 100000, and the two usize overflows of top_k.max(1)+cursor (debug panic, predicted by the model), plus a query nothing matches. Property oracle (implementation only): concatenated pages = one-shot stream, no (frame, range) twice, none missing, total_hits constant and equal to the one-shot's, "
+         "top_k 0, 100000 and usize::MAX, cursor u64::MAX and top_k usize::MAX with cursor 1 (top_k.max(1).saturating_add(cursor) saturates: InvalidCursor / a normal page, a panic is a violation), plus a query nothing matches. Property oracle (implementation only): concatenated pages = one-shot stream, no (frame, range) twice, none missing, total_hits constant and equal to the one-shot's, "
          "walk ends with next_cursor absent and no error, no page above top_k, next_cursor < total_hits; failures tagged by input predicates (candidates > max(20,4*max(k,1)); some frame's slices at cap k differ from its uncapped slices; neither). "
          "non-trivial = walk of more than one page / request answered; distinct by corpus digest + page size + cursor",
     level_text="Unbounded theorems over a line-by-line model of parse_cursor, offset_hint/doc_limit, the evaluation loop's snippet cap, the recency re-sort and the page loops of try_tantivy_search and search_with_lex_fallback. "
@@ -758,8 +764,7 @@ PROPS["C16"] = dict(
     trusted_base=["engine oracle: the request sees firstn doc_limit of the ranking (score desc, frame id asc) reconstructed from the scores in the top_k=1000 answer; a wrong reconstruction shows up as a correspondence mismatch, not as a silent pass",
                   "combined : score bits -> age -> f32 bits is a Section variable in the theorems (they hold for every function); in the correspondence it is the table of values computed in f32 with the formula copied from tantivy.rs",
                   "slice tables: verif_hooks::snippet_slices on the chunk text and the occurrences of the query token, caps 1-6, self-checked against the one-shot ranges"],
-    assumptions=["timestamps within +-2^62 (max_ts - timestamp does not overflow i64)", "BM25 scores positive and finite (f32 order = order of bit patterns)",
-                 "end-to-end theorem: top_k.max(1) + total_hits <= usize::MAX; otherwise the debug build panics on the add (modelled, observed in the page stream: a C22 matter, reported separately)",
+    assumptions=["BM25 scores positive and finite (f32 order = order of bit patterns)",
                  "candidate filter absent in the correspondence (no_sketch = true, no date range, no as-of)"],
     allowed_axioms=[],
 )
@@ -1051,27 +1056,29 @@ PROPS["C22"] = dict(
     n_quick=300, n_thorough=6000,
     harness_timeout=3400,
     rule="walscan (n/2 cases, compared with the model): files of 4096-5000 zero bytes + 0-6 well-formed log records (payload 1-60 bytes, sequence repeats) followed by nothing / a zero header / fewer than 48 zero bytes / junk / a header with length 0 and sequence <> 0 / sequence 0 and length u32::MAX, 2^31 or small; "
-         "then a bit flip, a cut anywhere, or the first length field forced (0, u32::MAX, tail-47, random); wal_offset = start of the records, +0..59, end of file, beyond it, u64::MAX-k, 2^63-1-k, 2^63, before the records; wal_size = 0, 1..47, 48, exactly the records, +0..47, +48, bytes available, more, less, u64::MAX-k, 2^63; checkpoint sequence 0 / last / last+1 / u64::MAX / random; "
-         "compared: Ok(pending_bytes, sequence) / error class (size zero, length invalid, checksum mismatch, I/O) of EmbeddedWal::open_read_only. "
+         "then a bit flip, a cut anywhere, or the first length field forced (0, u32::MAX, tail-47, random); wal_offset = start of the records (mostly), +0..59, end of file, beyond it, u64::MAX-k, 2^63-1-k, 2^63, before the records; wal_size = 0, 1..47, 48, exactly the records, +0..47, +48 (clipped to the file), exactly the bytes available (region end = file length), one more (refused), more, less, u64::MAX-k, 2^63; checkpoint sequence 0 / last / last+1 / u64::MAX / random; "
+         "compared: Ok(pending_bytes, sequence) / error class (size zero, region past end of file, length invalid, checksum mismatch, I/O) of EmbeddedWal::open_read_only. "
          "fuzz (n files, implementation only, each in a child process under RLIMIT_FSIZE 1 GiB, RLIMIT_AS 8 GiB, 20 s CPU, 600 s wall, private TMPDIR): four memories built by the shared driver (text: 8 frames incl. a chunked document, a binary and a deleted frame, two commits; vec: 5 frames with 4-dim embeddings; tracks: memory cards, mesh nodes/edge, sketch track; pending: a commit followed by two puts and a delete that were never committed = crash-left), "
          "each unchanged, the hand-built witnesses of the known classes, truncations at every region boundary -1/0/+1 and at 0,1,3,4,5,79,80,4095-4097, len-57..len-1 (a sample of n/5, one in six followed by random bytes), and per region class (8 header fields, first log record header, log head, whole log, frame payloads, time index header and body, Tantivy segment files, vec index, sketch header and body, memories track, logic mesh, TOC prefix, TOC, TOC tail, footer magic / toc_len / hash / generation): one byte (bit flip, 0, 0xFF, random), 2-16 random bytes, an edge u64 (0, 1, 2^32+-1, 2^63+-1, 2^64-1, 2^59, 2^40, file length +-1, random), zero fill, random fill, two damages in two regions; "
          "random files (0-90000 bytes of three styles) behind a valid header with footer_offset / wal_size forced and optionally a valid footer over random bytes; TOC-consistent damage: one of 30 manifest / frame fields set to an edge value with TOC checksum, footer and header re-stamped, and damage inside the time index / sketch / memories / vec / lex regions with the manifest checksum re-stamped. "
          "Each file, on a fresh copy per entry point: open_read_only + reads, verify(deep), doctor_plan, open + reads, doctor + open + search; reads = stats, frame_by_id / canonical payload / text / preview / embedding / blob_reader for ids 0..4, last, count, u64::MAX, frame_by_uri, 4 timeline queries, 7 searches (word, OR, phrase, AND NOT, date range, uri, no hit), a two-page search, search_vec with 4 and 1 dimensions, sketch stats. "
+         "The hand-built witnesses and requests of the repaired findings (time-index count 2^59, sketch count 2^60, log region at 2^40, segment extent 2^32, frame timestamp i64::MIN, cursor / top_k at the usize edges, top_k 2^40..2^61 without the sketch pre-filter, date:[* TO *]) are still generated as regression cases: their class tags are no longer listed as known, a reappearance is a VIOLATION. "
          "Oracle: every call returns Ok or Err; a panic (caught per call in the child, reported with its source location), an abort, a death by a limit or a timeout is a violation tagged by panic site + a predicate on the damaged file; an unchanged memory must be accepted by all five entry points. "
          "req (27 requests on an unchanged memory): top_k / cursor at the usize edges with and without the sketch pre-filter, malformed cursors, date:[* TO *]. "
          "non-trivial = more than five calls answered or some call refused the file; distinct by BLAKE3 of the damaged file",
     level_text="Unbounded theorems, for ALL byte strings / header values, over line-by-line models in which every Rust +, -, *, %, index, slice and with_capacity that can panic in the debug profile is an explicit checked operation: "
                "HeaderCodec::decode / read (C30's model) never panic; find_last_valid_footer (C31's model, structural recursion on search_end) answers for every buffer and inside it; locate_footer_window terminates within 65 doublings and its subtraction, slice and doubling never panic for files below 2^63 bytes; "
-               "EmbeddedWal::scan_records / open_internal: with cursor + 48, offset + cursor, cursor + 48 + length, 48 + length, cursor += and the pending-bytes sum as checked additions and % as a checked remainder, no panic for every file below 2^63 bytes, every wal_offset / wal_size / checkpoint values a header can hold and every hash function, and the loop never exhausts fuel |file|+1 (measure: bytes of the file after offset+cursor; invariant: cursor = 0 or the bytes up to offset+cursor were read); "
+               "EmbeddedWal::scan_records / open_internal: with cursor + 48, offset + cursor, cursor + 48 + length, 48 + length, cursor += and the pending-bytes sum as checked additions and % as a checked remainder, no panic for every file below 2^63 bytes, ARBITRARY wal_offset / wal_size / checkpoint values and every hash function, and the loop never exhausts fuel |file|+1 (measure: bytes of the file after offset+cursor; invariant: cursor = 0 or the bytes up to offset+cursor were read); "
                "verify_toc_prefix never panics and accepts exactly (>= 24 bytes, version <= 32, counts <= 10^6, 32*segments + 64*frames <= length); read_toc (len - footer_offset, buf.len() - 56, both slices) never panics for any non-panicking Toc decoder and for the modelled Toc::decode; the bincode decoder never panics for ANY schema and bytes (new generic theorem), hence Toc::decode (all three layouts); ensure_non_overlapping_frames, Mv2eHeader::decode, parse_cursor never panic; the query parser is total (C32). "
-               "REFUTED with exact classes and proved outside them: time-index read_track (count*16 >= 2^63 with matching length: Vec::with_capacity), read_sketch_track (24 + entry_count*entry_size >= 2^64: unchecked multiply), top_k.max(1) + cursor (> usize::MAX), top_k*10 (>= 2^64). "
+               "Repaired in /repo and now proved total (restated against local definitions in Model/OpenSeq.v): time-index read_track with the allocator as an arbitrary oracle (try_reserve_exact: the former capacity class is exactly the error 'entry count too large'), read_sketch_track (an overflowing entry_count * entry_size + 24 is the error 'entry count overflows'), the saturating sizing arithmetic of search (doc_limit in 1..usize::MAX, sketch candidates in 500..usize::MAX, collector limit in 1..max(index documents,1), recency age within i64), and the log open refuses a region that does not lie inside the file (an accepted region satisfies offset + size <= file length). "
                "open_locked is modelled as a decision procedure over abstract decoder / loader outcomes (sniff, header, read_toc, recovery branch with header rewrite, overlap check, log open, generation, the ordered loaders, the final checksum branch): if every component answers Ok or Err, open answers Ok or Err. "
                "Everything else on these paths (serde visitors, Tantivy, zstd, HNSW, doctor's rebuilds, the search pipeline) is covered by the child-process test only.",
-    level_note="Partial overall: proof for the modelled decoders, test for the rest. The property as stated is REFUTED on the unchanged tree: known findings F-C22-1..11 (time-index capacity overflow, sketch-track count multiplication, cursor add, top_k multiply, Tantivy's unbounded date range assertion, Tantivy panics on damaged segment bytes with and without re-stamped checksums, writes into a log region the damaged header places beyond the end of the file, Tantivy's collector allocation for an absurd top_k, footer re-alignment to a segment extent beyond the file, i64 subtraction in the recency boost). "
-               "Trusted: Coq kernel + vm_compute; hand-written models (the log scan tied by the walscan correspondence; header / footer / time index / TOC / sketch / cursor / query models tied by C30, C31, C39, C16, C32's runs; verify_toc_prefix, read_toc, locate_footer_window, ensure_non_overlapping_frames and open_locked's control flow are private with no hook: tied only through whole-file runs, see hooks wanted); "
-               "OS model: seek fails above i64::MAX, read_exact fails at EOF, files are shorter than 2^63 bytes; allocations below isize::MAX bytes succeed (scan_records allocates up to 4 GiB - 1 for one record length taken from the file before reading it: bounded, not a panic, noted); debug-profile overflow semantics; Mv2eHeader::decode is not compiled into the harness (feature `encryption` off): modelled, not tied.",
+    level_note="Partial overall: proof for the modelled decoders, test for the rest. Nine defects found by this check were repaired in /repo (KNOWN_FINDINGS.json 'fixed'); the property is still REFUTED on the current tree in two classes that are recorded, not repaired: F-C22-6 / F-C22-7, Tantivy's own decoders panic in search on embedded segment bytes that are not what Tantivy wrote (original or re-stamped manifest checksum). "
+               "Trusted: Coq kernel + vm_compute; hand-written models (the log scan tied by the walscan correspondence; header / footer / TOC / cursor / query models tied by C30, C31, C16, C32's runs; the local restatements of read_track and read_sketch_track follow C30's / C39's byte layouts and are tied only through the whole-file regression cases; verify_toc_prefix, read_toc, locate_footer_window, ensure_non_overlapping_frames and open_locked's control flow are private with no hook: tied only through whole-file runs, see hooks wanted); "
+               "OS model: seek fails above i64::MAX, read_exact fails at EOF, files are shorter than 2^63 bytes; memory allocation is an oracle: read_track's try_reserve_exact is modelled with an arbitrary allocator predicate (refusal = Err), elsewhere allocations below isize::MAX bytes are assumed to succeed (scan_records allocates up to 4 GiB - 1 for one record length taken from the file before reading it: bounded, not a panic, noted); debug-profile overflow semantics; Mv2eHeader::decode is not compiled into the harness (feature `encryption` off): modelled, not tied.",
     trusted_base=["BLAKE3 is a Section variable in the theorems; in the walscan run it is the table of real digests of the record payloads",
                   "the child-process runner: prlimit(1) for RLIMIT_FSIZE / RLIMIT_AS / RLIMIT_CPU, a panic hook that records file:line and message, catch_unwind per call",
+                  "memory allocation: try_reserve_exact in read_track is an oracle (Section variable alloc_ok), every theorem holds for any allocator behaviour",
                   "class predicates of the file-borne findings are evaluated by the harness on the damaged file (TOC decoded from the header's or the last valid footer's position)"],
     assumptions=["files shorter than 2^63 bytes (off_t), bytes below 256",
                  "hang detection is by CPU time (20 s per child) plus a 600 s wall-clock cap, so that a loaded machine does not produce false hangs",
@@ -1192,5 +1199,36 @@ PROPS["C09"] = dict(
 )
 
 # Temporarily held while the models are being updated to repaired /repo code (2026-09-22):
-for _pid in ("C22", "C30", "C16", "C09"):
+for _pid in ():
     PROPS[_pid]["hold"] = True
+
+PROPS["C07"] = dict(
+    corr_module="Corr.C07",
+    streams={"hist": dict(runner="C07_run", in_t="C07_in", out_t="C07_out", shard=3, imports=["Model.Content"])},
+    n_quick=26, n_thorough=500,
+    harness_timeout=3000,
+    rule="histories of 1-4 commit batches on a real memory (shared Driver), each batch 1-4 ops: puts (payload classes: empty, 1-8 random/zero/ASCII bytes, zero-filled, random binary, "
+         "non-UTF-8 with one bad byte short/long, highly compressible, UTF-8 of exactly 2399/2400/2401 characters ASCII and multibyte, larger prose with/without newlines and multibyte, "
+         "structured text with tables/code, whitespace only, control-heavy, text the normalizer changes, sentence end + unbroken 1440..2600-char token (single-space chunk), 20-60 KB binary forcing log growth, UTF-8 with NUL) "
+         "x option classes (default, all extras off, auto_tag off + instant index, with uri, budget 0, caller search text), updates with payload, payload-reusing updates, deletes; "
+         "with/without begin_batch compression level 0/1/3/9; ended by commit or by exit-without-commit + reopen (replay), optionally followed by a reopen; 5 fixed histories first (tiny payload sweep, "
+         "threshold texts, the two reproduction inputs of the fixed defect 270cbaf, the witness of F-C07-2). After every commit every frame is read through frame_canonical_payload, blob_reader (to the end) "
+         "and frame_text_by_id and the stored window is read from the file with std::fs; compared with the model: all payload fields of all frames (offset, length, checksum, encoding, canonical length, role, manifest, parent, chunk index, status) "
+         "and the three reads (lengths + BLAKE3), or the commit error kind; property oracle: byte equality with what was put, BLAKE3 of the stored window = checksum, canonical_length, shared fields of reusing updates, "
+         "chunk frames = planned chunks, parent = concatenation in chunk_index order = normalize_text (unstructured), unchanged after reopen; non-trivial = the history committed at least one whole or chunked payload; distinct by digest of the model input",
+    level_text="Unbounded theorems over a byte-level model of the payload region (file as a byte list, absolute offsets; prepare_canonical_payload_with_level, decode_canonical_bytes, apply_records' placement/checksum/parent/index-read parts with "
+               "data_end advanced inside the loop, validate_frame_bounds, read_frame_payload_bytes, frame_canonical_bytes, document_chunk_payloads, blob_reader, frame_content; zstd, BLAKE3, UTF-8 validity as arbitrary functions with the single "
+               "hypothesis dec(enc x)=x): for every store, every accepted batch of records and every payload stored whole, canonical payload = P, blob reader (file window or memory) reads P, checksum = H(stored window), validate_frame_bounds accepts, "
+               "canonical length check passes; the frame read back during apply is accepted at the time it is read; payload-reusing updates share offset/length/checksum and read the same; chunked documents read the in-order concatenation of their chunks "
+               "(read side) and for unstructured text the chunk encodings concatenate to the normalized text (from C34). Model tied to the code by histories on real memories compared frame by frame and read by read.",
+    level_note="Property as stated is REFUTED for one class, recorded as known finding F-C07-2 (non-UTF-8 payload with a chunk plan from its extracted text: canonical payload returns the chunk text); proved outside it. "
+               "PARTIAL for chunked text: the theorem covers the read side (given the active children in chunk_index order); that apply_records leaves exactly the put's chunk frames as the parent's children is checked by correspondence only. "
+               "The blob reader of a chunked parent (payload_length 0, Plain) is the empty file window: recorded as an observation (Example C07_nonvacuous_chunked), the property's blob-reader clause is worded for whole payloads. "
+               "Trusted: Coq kernel + vm_compute; hand-written model (tied by correspondence); zstd/BLAKE3/UTF-8 validity oracles (finite tables of observed values in the runs); search text and mime class of each entry, data_end and the log-region size are read from the implementation through hooks; no I/O errors.",
+    trusted_base=["zstd is a pair of Section variables with hypothesis zdec (zenc level x) = Some x; in the runs it is the table (level, payload, stored window) observed on the implementation",
+                  "BLAKE3 is a Section variable; in the runs the table of real digests of every byte string hashed",
+                  "std::str::from_utf8 validity is a Section variable; in the runs the list of valid byte strings of the case",
+                  "each log entry's search text and mime class (outputs of the extractor / augment_search_text) are inputs of the model, read from the committed frame"],
+    assumptions=["no I/O errors or short writes", "every fresh payload of a batch is at most MAX_FRAME_BYTES (256 MiB) and the final data_end fits in u64", "frames updated by a payload-reusing update carry a canonical_length (every frame apply_records creates does)"],
+    allowed_axioms=[],
+)
